@@ -25,7 +25,8 @@ CONSTANTS MaxNodes,     \* collection nodes besides the root sequence
           MaxElems,     \* elements per sequence node
           MapTags,      \* subset of {"map","set"}
           SeqTags,      \* subset of {"seq","omap","pairs"}
-          Modes,        \* subset of {"A","B","C"}: how the root lists the nodes
+          Modes,        \* subset of {"A","B","C","D"}: how the root lists the nodes (A unreferenced ascending, B all ascending,
+                        \* C unreferenced descending, D all descending: every node is used again after its users)
           AllowSelf,    \* BOOLEAN: a mapping may merge itself (&a {<<: *a})
           MergeShape    \* "any": every entry may hold a scalar or a reference; "refs": nesting only through merge keys
                         \* (plain keys hold scalars, merge keys and sequence elements hold references) - the shape of
@@ -253,8 +254,8 @@ SeqsUpTo(Sx, n) == UNION {[1 .. m -> Sx] : m \in 0 .. n}
 Referenced(h) == {en.v.id : en \in {x \in UNION {Range(h[i].e) : i \in {j \in DOMAIN h : h[j].t = "map"}} : IsRef(x.v)}}
                  \cup {v.id : v \in {x \in UNION {Range(h[i].e) : i \in {j \in DOMAIN h : h[j].t = "seq"}} : IsRef(x)}}
 TopOf(h, m) == LET unref == {i \in DOMAIN h : \A j \in DOMAIN h \ {i} : i \notin Referenced([x \in {j} |-> h[j]])}
-                   asc == SelectSeq([i \in DOMAIN h |-> i], LAMBDA i : m = "B" \/ i \in unref)
-               IN  IF m = "C" THEN Reverse(asc) ELSE asc
+                   asc == SelectSeq([i \in DOMAIN h |-> i], LAMBDA i : m \in {"B", "D"} \/ i \in unref)
+               IN  IF m \in {"C", "D"} THEN Reverse(asc) ELSE asc
 
 \* (omap/pairs elements may be written with merge keys; H above says what that means)
 ElemOk(h, tag, v) == IF tag \notin {"omap", "pairs"} THEN TRUE
